@@ -101,12 +101,12 @@ Definition d_degrade (red : list V -> W) (r : Z) (nb : W) (d : dmap V) : dmap W 
            (zrange 0 (d_npix V d / r)))
       (dcov d) nb.
 
-Definition d_degrade2 (red : list (V * W) -> W) (r : Z) (nb : W) (d : dmap V) (w : dmap W) : dmap W :=
+Definition d_degrade2 (red : list (V * W) -> W) (r : Z) (nb : W) (d : dmap V) (wd : list W) : dmap W :=
   let nf' := d_nfine d / r in
   mkd nf'
       (map (fun q => if znth false (dcov d) (q / nf')
                      then red (combine (zslice (dense d) (q * r) ((q + 1) * r))
-                                       (zslice (dense w) (q * r) ((q + 1) * r))) else nb)
+                                       (zslice wd (q * r) ((q + 1) * r))) else nb)
            (zrange 0 (d_npix V d / r)))
       (dcov d) nb.
 
